@@ -71,7 +71,9 @@ def run(tier, seed, replay=None):
         nontriv.add(C.case_hash(args))
         try:
             model = SplineModel(pd, cx['dim'])
-            kw = dict(raise_on_twins=False) if ring else {}
+            # twin rejection stays ON for rings that close onto themselves or in three patches; two patches sharing all
+            # their corners are twins by the library's own criterion and need raise_on_twins=False
+            kw = dict(raise_on_twins=False) if (ring and cx['kind'] == 'ring2') else {}
             if rng.random() < 0.5:
                 model.add(cx['patches'], **kw)
             else:
